@@ -369,6 +369,11 @@ func (vc *VC) dispatchCall2(st *State, call *ast.CallExpr, recv *Term, args []Te
 		}
 	}
 	// opaque
+	if vc.prog.HeapPure[key] {
+		vc.opaque[key+" (inferred heap-pure)"]++
+		vc.havocGhosts(st, vc.prog.GhostMods[key])
+		return vc.freshResults(st, call, fn.Name())
+	}
 	vc.opaque[key]++
 	if isRqlitePkg(pkgPath) {
 		vc.havocHeap(st, key)
@@ -1162,6 +1167,9 @@ func (vc *VC) callEffects(call *ast.CallExpr, ef *effects) {
 	}
 	for g := range vc.prog.GhostMods[key] {
 		ef.ghosts[g] = true
+	}
+	if vc.prog.HeapPure[key] {
+		return
 	}
 	pkgPath := ""
 	if fn.Pkg() != nil {
